@@ -167,6 +167,9 @@ func (d *Decoder) decodeValue(value reflect.Value) {
 	}
 
 	val := d.decodeValueGeneral(value)
+	if d.err != nil {
+		return
+	}
 	if val != nil {
 		value.Set(reflect.ValueOf(val).Convert(value.Type()))
 		return
@@ -213,6 +216,11 @@ func (d *Decoder) decodeValue(value reflect.Value) {
 	}
 
 	if d.err != nil {
+		return
+	}
+
+	if val == nil || !reflect.TypeOf(val).ConvertibleTo(value.Type()) {
+		d.err = fmt.Errorf("got value of type %T, which is not convertible to %v", val, value.Type())
 		return
 	}
 
